@@ -126,6 +126,17 @@ func vh_rcv_step() {
 		vassert(len(c.net.Sent) >= 1, "data sent into a closed window is answered by an ACK")
 		vreach("closed-window")
 	}
+	// an empty segment (pure ACK, FIN, duplicate SYN-ACK after the handshake, keep-alive probe)
+	// outside the window changes nothing and is answered by an ACK (RFC 793 p. 69) - without
+	// that answer a peer whose final handshake ACK was lost, or that probes, waits forever
+	if n == 0 {
+		w := rcvNxt0.Size(acc0)
+		if !((w == 0 && seq == rcvNxt0) || (w > 0 && seq.InWindow(rcvNxt0, w))) {
+			vassert(adv == 0 && len(got) == 0, "an empty segment outside the window changes nothing")
+			vassert(len(c.net.Sent) >= 1, "an unacceptable empty segment is answered by an ACK")
+			vreach("outside-empty")
+		}
+	}
 	// data wholly outside [rcvNxt, rcvAcc) delivers nothing and is answered by an ACK
 	if n > 0 && rcvNxt0.Size(acc0) > 0 && !seq.InWindow(rcvNxt0, rcvNxt0.Size(acc0)) && !seq.Add(seqnum.Size(n)-1).InWindow(rcvNxt0, rcvNxt0.Size(acc0)) &&
 		!rcvNxt0.InWindow(seq, seqnum.Size(n)) {
